@@ -45,6 +45,11 @@ func (m *Mutex) TryLock() bool {
 
 func (m *Mutex) Unlock() {
 	if active.Load() != nil {
+		if !m.held.Load() {
+			// in the real program this is "fatal error: sync: unlock of unlocked mutex": the whole process
+			// dies, no recover can contain it. Report it as what it is instead of dying with the worker.
+			Fail("process-fatal", "sync: unlock of unlocked mutex: a fatal runtime error that ends the whole process (no recover contains it)")
+		}
 		m.held.Store(false)
 	}
 	m.mu.Unlock()
@@ -74,6 +79,9 @@ func (m *RWMutex) Lock() {
 
 func (m *RWMutex) Unlock() {
 	if active.Load() != nil {
+		if !m.writer.Load() {
+			Fail("process-fatal", "sync: Unlock of unlocked RWMutex: a fatal runtime error that ends the whole process (no recover contains it)")
+		}
 		m.writer.Store(false)
 	}
 	m.mu.Unlock()
@@ -96,6 +104,9 @@ func (m *RWMutex) RLock() {
 
 func (m *RWMutex) RUnlock() {
 	if active.Load() != nil {
+		if m.readers.Load() <= 0 {
+			Fail("process-fatal", "sync: RUnlock of unlocked RWMutex: a fatal runtime error that ends the whole process (no recover contains it)")
+		}
 		m.readers.Add(-1)
 	}
 	m.mu.RUnlock()
